@@ -311,10 +311,6 @@ func oneRun(w *lib.Writer, rnd *lib.Rand, engine, scratch string, cacheSize int)
 			close(wclosed)
 		}()
 	}
-	type lst struct {
-		rev uint64
-		kvs []kv
-	}
 	var lists []lst
 	// range reads at the committed revision of the moment, given explicitly, while the writers run
 	for i := 0; i < 3; i++ {
@@ -328,6 +324,21 @@ func oneRun(w *lib.Writer, rnd *lib.Rand, engine, scratch string, cacheSize int)
 			mark("list-during-writes")
 		} else {
 			mark("list-refused")
+		}
+	}
+	// further list-then-watch clients on other prefixes (and the common one), started while the writers run
+	var extras []*lw
+	for _, P2 := range prefixes[:3] {
+		if bytes.Equal(P2, P) || len(extras) >= 2 {
+			continue
+		}
+		time.Sleep(time.Duration(rnd.Intn(200)) * time.Microsecond)
+		lag := time.Duration(0)
+		if rnd.Chance(1, 3) {
+			lag = time.Duration(1+rnd.Intn(5)) * time.Millisecond
+		}
+		if x, err := startLW(b, P2, lag); err == nil {
+			extras = append(extras, x)
 		}
 	}
 	wg.Wait()
@@ -374,8 +385,25 @@ func oneRun(w *lib.Writer, rnd *lib.Rand, engine, scratch string, cacheSize int)
 	if _, kvs, err := list(b, P, b.GetCurrentRevision()); err == nil {
 		lists = append(lists, lst{b.GetCurrentRevision(), kvs})
 	}
+	// the other clients: same history, their own prefix, their own first list
+	type extraRes struct {
+		x     *lw
+		got   []ev
+		lists []lst
+	}
+	var extraOut []extraRes
+	for _, x := range extras {
+		if !x.waitRev(lastMatching(slots, x), 15*time.Second) {
+			mark("events-missing-after-15s")
+		}
+		got := x.got()
+		extraOut = append(extraOut, extraRes{x, got, x.listsAt(b, got)})
+	}
 	atomic.StoreInt32(&stop, 1)
 	<-cdone
+	for _, x := range extras {
+		x.stop()
+	}
 	cancel()
 	if werr == nil {
 		select {
@@ -422,6 +450,10 @@ func oneRun(w *lib.Writer, rnd *lib.Rand, engine, scratch string, cacheSize int)
 	w.Add(c)
 	if stalled {
 		w.Fail(lib.ImplFailure{CaseID: w.Len() - 1, What: fmt.Sprintf("committed revision %d never reached %d", b.GetCurrentRevision(), last), Case: c.JSON})
+	}
+	for i, e := range extraOut {
+		w.Add(e.x.caseKLw("list-then-watch/"+engine+"/concurrent-client", slots, e.got, e.lists, outcomes,
+			map[string]interface{}{"engine": engine, "initial_revision": c0, "writers": nW, "client": i + 1}))
 	}
 }
 
@@ -586,10 +618,6 @@ func hookedRun(w *lib.Writer, rnd *lib.Rand, scratch string, midScan bool, cache
 	emu.Lock()
 	got := append([]ev{}, evs...)
 	emu.Unlock()
-	type lst struct {
-		rev uint64
-		kvs []kv
-	}
 	var lists []lst
 	seen := map[uint64]bool{}
 	for _, e := range got {
@@ -669,6 +697,32 @@ func main() {
 			cs = 1 + i%5
 		}
 		hookedRun(w, rnd.Fork(), args.Scratch, i%2 == 0, cs)
+	}
+	// deterministic mixed-prefix batches with three clients, one of them lagging
+	nm := 12
+	if args.Tier != "quick" {
+		nm = 80
+	}
+	for i := 0; i < nm; i++ {
+		cs := 0
+		if i%3 == 2 {
+			cs = 4 + i%7
+		}
+		mixedRun(w, rnd.Fork(), args.Scratch, cs)
+	}
+	// unknown-outcome writes (create/update/delete, applied or not) + compaction inside the retry window
+	nf := 1
+	if args.Tier != "quick" {
+		nf = 6
+	}
+	for r := 0; r < nf; r++ {
+		for verb := 0; verb < 3; verb++ {
+			for _, applied := range []bool{true, false} {
+				for _, big := range []bool{false, true} {
+					faultRun(w, rnd.Fork(), args.Scratch, verb, applied, big)
+				}
+			}
+		}
 	}
 	for i := 0; i < n; i++ {
 		cs := 0
